@@ -20,6 +20,11 @@ TRUSTED = [
     "(epsilon included); with the default epsilon 1e-10 the objectives lie on a grid of spacing >= 2^-10 and magnitude "
     "< 2^10, so fl(objective + epsilon) compares with grid values (and with means of two grid values) exactly as "
     "objective + epsilon does over the rationals",
+    "near_ties family: objectives 1 + k*2^-40 with integer k; with the default epsilon fl(objective + 1e-10) vs a grid value "
+    "(or the mean of two: half-integer k) is decided by (k - k')*2^-40 + 1e-10, whose distance from 0 is >= 4e-14 >> 2^-53, so "
+    "the floating-point comparison equals the rational one; huge family: +-(2^60 + k*2^10), exactly representable, sums of "
+    "two exact, spacing 2^10 >> epsilon >> 0 so both comparisons reduce to objective >= threshold",
+    "Python int / float / numpy.float64 / numpy.int64 objectives of equal value are the same number for the model",
     "numpy sort / median / integer floor division on such values; isinstance(x, numbers.Number) separates numbers from failures",
     "MemoryStorage.store_job_metadata / load_metadata_from_all_jobs / load_job (the storage is property C13's subject)",
 ]
@@ -39,7 +44,11 @@ RULE = ("*_protocol: stopper parameters from the grid of the property's quantifi
         "(whole steps, 34650) and of 2 evaluations x max_steps 3 (single operations, 924) per parameter/curve set, one case = "
         "one block of interleavings sharing a prefix (block_runs in the histogram); search_end_to_end: RandomSearch on the "
         "SerialEvaluator with an async run-function, operation order as produced by the evaluator; free_ops: arbitrary "
-        "budgets and operations after a stop (model fidelity only, no oracle). non-trivial = at least one evaluation is "
+        "budgets, repeated stopped(), operations after a stop (model fidelity only, no oracle). Across the streams: 8 objective "
+        "families (monotone, crossing, constant, noisy, plateau, near_ties = margins 1e-12..1e-6 around the default epsilon, "
+        "huge = +-2^60, zeros), objectives passed as float / int / numpy.float64 / numpy.int64, float-typed parameters and "
+        "budgets, failures at the first step, two searches on one storage, the caller editing every list it gets back, "
+        "the prototype stopper inspected at the end, thread evaluator and a second search() call end to end. non-trivial = at least one evaluation is "
         "stopped early (before max_steps, without failure) and at least one continues past a budget that >= 2 evaluations recorded")
 COQ_DIRS = ()
 
@@ -76,9 +85,11 @@ def make_stopper(case):
     kw = {}
     if case.get("eps", "default") != "default":
         kw["epsilon"] = float(eps_fraction(case))
+    # the documented types of min_steps / reduction_factor / min_early_stopping_rate are float: same values as floats
+    num = float if case.get("ptype") == "float" else int
     if k == "asha":
-        return SuccessiveHalvingStopper(max_steps=case["max_steps"], min_steps=case.get("min_steps", 1), reduction_factor=case.get("rf", 3),
-                                        min_early_stopping_rate=case.get("mesr", 0), min_competing=case.get("min_comp", 0),
+        return SuccessiveHalvingStopper(max_steps=case["max_steps"], min_steps=num(case.get("min_steps", 1)), reduction_factor=num(case.get("rf", 3)),
+                                        min_early_stopping_rate=num(case.get("mesr", 0)), min_competing=case.get("min_comp", 0),
                                         min_fully_completed=case.get("min_full", 0), **kw)
     if k == "median":
         return MedianStopper(max_steps=case["max_steps"], min_steps=case.get("min_steps", 1), min_competing=case.get("min_comp", 0),
@@ -91,8 +102,40 @@ def make_stopper(case):
 
 
 # ---------------------------------------------------------------- implementation side
+def check_grid(case, z):
+    """fail closed: an objective outside the regimes for which TRUSTED argues that binary64 and exact arithmetic agree"""
+    sc = case.get("scale", 0)
+    ok = (sc <= 10 and abs(z) < 2 ** (10 + sc)) or (sc == 40 and abs(z - 2 ** 40) <= 2 ** 22) \
+        or (sc == 0 and 2 ** 59 <= abs(z) < 2 ** 62 and z % 2 ** 10 == 0)
+    if not ok:
+        raise ValueError("objective %d / 2^%d is outside the exact regimes of the harness" % (z, sc))
+
+
+def conv_budget(case, b, j):
+    """budgets are step numbers; the documented type is float: every third evaluation passes them as floats"""
+    return float(b) if case.get("btype") == "float" and j % 3 != 1 else b
+
+
+def conv_value(case, z, j, b):
+    """the objective handed to record(): a failure string, or the number z / 2^scale as a Python float, a Python int,
+    a numpy float64 or a numpy int64 (the integer types only when the value is integral)"""
+    import numpy as np
+
+    if z is None:
+        return "F" if (j + b) % 3 else "F_%d" % b
+    check_grid(case, z)
+    scale = 2 ** case.get("scale", 0)
+    vt = case.get("vtype", "float")
+    if vt == "mixed":
+        vt = ["float", "int", "npfloat", "npint"][(j + b) % 4]
+    if vt in ("int", "npint") and z % scale == 0 and abs(z // scale) < 2 ** 62:
+        return int(z // scale) if vt == "int" else np.int64(z // scale)
+    v = z / scale
+    return np.float64(v) if vt == "npfloat" else v
+
+
 class Impl:
-    """n RunningJobs with deep copies of one stopper, sharing one MemoryStorage."""
+    """n RunningJobs with deep copies of one stopper, sharing one MemoryStorage (one or several searches on it)."""
 
     def __init__(self, case):
         from deephyper.evaluator import Job
@@ -102,31 +145,59 @@ class Impl:
         self.scale = 2 ** case.get("scale", 0)
         self.D = denom(case)
         self.st = MemoryStorage()
-        self.sid = self.st.create_new_search()
-        self.proto = make_stopper(case)
         self.n = case["njobs"]
+        self.groups = case.get("searches") or [0] * self.n
+        self.sids = [self.st.create_new_search() for _ in range(max(self.groups + [0]) + 1)]
+        self.proto = make_stopper(case)
         self.jobs = [None] * self.n
+        self.hist = [([], []) for _ in range(self.n)]   # what the harness recorded: budgets, objectives
+        self.problems = []
         self.Job = Job
         if not case.get("lazy"):
             for j in range(self.n):
                 self._create(j)
 
     def _create(self, j):
-        jid = self.st.create_new_job(self.sid)
+        jid = self.st.create_new_job(self.sids[self.groups[j]])
         self.jobs[j] = self.Job(jid, {}, None, self.st).create_running_job(self.proto)
+
+    def _after(self, j, what):
+        """public read-outs after every operation; the returned copies are then edited (aliasing probe)"""
+        rj = self.jobs[j]
+        obs = rj.stopper.observations
+        exp = [list(self.hist[j][0]), list(self.hist[j][1])]
+        if obs != exp and not self.problems:
+            self.problems.append(("observations", dict(after=what, job=j, got=repr(obs), expected=repr(exp))))
+        if exp[1] and rj.objective != exp[1][-1] and not self.problems:
+            self.problems.append(("objective_readout", dict(after=what, job=j, got=repr(rj.objective), expected=repr(exp[1][-1]))))
+        obs[0].append(-7)
+        obs[1].append("edited-by-caller")
+        obs[1][:1] = ["edited-by-caller"]
 
     def record(self, j, b, z):
         if self.jobs[j] is None:
             self._create(j)
-        self.jobs[j].record(b, "F" if z is None else z / self.scale)
+        v = conv_value(self.case, z, j, b)
+        b = conv_budget(self.case, b, j)
+        self.jobs[j].record(b, v)
+        self.hist[j][0].append(b)
+        self.hist[j][1].append(v)
+        self._after(j, "record")
 
     def stopped(self, j):
         r = self.jobs[j].stopped()
+        self._after(j, "stopped")
         return bool(r)
 
     def metas(self):
         """per job: ({rung: int | None}, completed code 0/1/2)"""
         return [({}, 0) if rj is None else read_meta(self.st.load_job(rj.id)["metadata"], self.D) for rj in self.jobs]
+
+    def finish(self):
+        """the stopper object handed in is a prototype: running evaluations must not leave traces in it"""
+        if (self.proto.observations != [[], []] or self.proto.job is not None) and not self.problems:
+            self.problems.append(("prototype_mutated", dict(observations=repr(self.proto.observations), job=repr(self.proto.job))))
+        return self.problems
 
 
 def run_protocol(case):
@@ -175,7 +246,7 @@ def run_protocol(case):
                     do_stp(j)
                 else:
                     do_rec(j)
-    return ops, outs, metas
+    return ops, outs, metas, im.finish()
 
 
 def run_free(case):
@@ -188,7 +259,7 @@ def run_free(case):
         else:
             outs.append(im.stopped(o[1]))
         metas.append(im.metas())
-    return ops, outs, metas
+    return ops, outs, metas, im.finish()
 
 
 def read_meta(md, D, strict=True):
@@ -214,18 +285,23 @@ def read_meta(md, D, strict=True):
 
 
 def run_search(case):
-    """End to end: a RandomSearch on the SerialEvaluator (asyncio tasks, num_workers of them in flight) whose
-    run-function follows the documented loop record()/stopped() and yields to the other evaluations where the case
-    says so.  The order of operations is whatever the evaluator produces; it is logged from inside the run-function."""
+    """End to end: a RandomSearch whose run-function follows the documented loop record()/stopped().
+    method "serial": SerialEvaluator, async run-function that yields to the other evaluations where the case says so;
+    method "thread": ThreadPoolEvaluator, plain run-function, every operation (with its log entry and metadata
+    snapshot) under one lock.  The order of operations is whatever the evaluator produces; it is logged from inside the
+    run-function.  search() may be called a second time on the same Search object (same stopper, same storage)."""
     import asyncio
     import tempfile
+    import threading
+    import time
 
     from deephyper.evaluator import Evaluator
     from deephyper.hpo import HpProblem, RandomSearch
 
-    scale, D = 2 ** case.get("scale", 0), denom(case)
+    D = denom(case)
     curves, T, yld = case["curves"], case["max_steps"], case.get("yield", "rs")
     ops, outs, snaps = [], [], []
+    lock = threading.Lock()
 
     def snapshot(job):
         st = job.storage
@@ -233,40 +309,72 @@ def run_search(case):
         ids = sorted(st.load_all_job_ids(sid), key=lambda x: int(x.split(".")[-1]))
         snaps.append([read_meta(st.load_job(i)["metadata"], D, strict=False) for i in ids])
 
-    async def run(job):
-        k = int(job.id.split(".")[-1])
-        c = curves[k % len(curves)]
-        b = 0
-        for b in range(1, T + 4):
-            z = c[min(b - 1, len(c) - 1)]
-            job.record(b, "F" if z is None else z / scale)
+    def do_rec(job, k, b, z):
+        with lock:
+            job.record(conv_budget(case, b, k), conv_value(case, z, k, b))
             ops.append(["r", k, b, z])
             outs.append(None)
             snapshot(job)
-            if "r" in yld:
-                await asyncio.sleep(0)
+
+    def do_stp(job, k):
+        with lock:
             o = bool(job.stopped())
             ops.append(["s", k])
             outs.append(o)
             snapshot(job)
+        return o
+
+    async def run_async(job):
+        k = int(job.id.split(".")[-1])
+        c = curves[k % len(curves)]
+        b = 0
+        for b in range(1, T + 4):
+            do_rec(job, k, b, c[min(b - 1, len(c) - 1)])
+            if "r" in yld:
+                await asyncio.sleep(0)
+            o = do_stp(job, k)
             if "s" in yld:
                 await asyncio.sleep(0)
             if o:
                 break
         return {"objective": job.objective, "metadata": {"budget": b}}
 
+    def run_sync(job):
+        k = int(job.id.split(".")[-1])
+        c = curves[k % len(curves)]
+        b = 0
+        for b in range(1, T + 4):
+            do_rec(job, k, b, c[min(b - 1, len(c) - 1)])
+            if "r" in yld:
+                time.sleep(0)
+            o = do_stp(job, k)
+            if "s" in yld:
+                time.sleep(0)
+            if o:
+                break
+        return {"objective": job.objective, "metadata": {"budget": b}}
+
     problem = HpProblem()
     problem.add_hyperparameter((0.0, 1.0), "x")
+    proto = make_stopper(case)
+    problems = []
     with tempfile.TemporaryDirectory(prefix="vp_c16_") as d:
-        ev = Evaluator.create(run, method="serial", method_kwargs={"num_workers": case.get("num_workers", 1)})
+        if case.get("method", "serial") == "thread":
+            ev = Evaluator.create(run_sync, method="thread", method_kwargs={"num_workers": case.get("num_workers", 1)})
+        else:
+            ev = Evaluator.create(run_async, method="serial", method_kwargs={"num_workers": case.get("num_workers", 1)})
         try:
-            search = RandomSearch(problem, ev, random_state=case.get("seed", 0), log_dir=d, stopper=make_stopper(case))
+            search = RandomSearch(problem, ev, random_state=case.get("seed", 0), log_dir=d, stopper=proto)
             search.search(max_evals=case.get("max_evals", 4))
+            if case.get("second_call"):
+                search.search(max_evals=case["second_call"])
         finally:
             ev.close()
+    if proto.observations != [[], []] or proto.job is not None:
+        problems.append(("prototype_mutated", dict(observations=repr(proto.observations), job=repr(proto.job))))
     n = max([len(sn) for sn in snaps] + [1 + max([o[1] for o in ops] + [0])])
     metas = [sn + [({}, 0)] * (n - len(sn)) for sn in snaps]
-    return n, ops, outs, metas
+    return n, ops, outs, metas, problems
 
 
 # ---------------------------------------------------------------- model side
@@ -359,14 +467,14 @@ def describe(case, ops, outs):
     return desc, (early > 0 and promoted2)
 
 
-def judge(case, ops, outs, metas, oracle=True):
+def judge_one(case, ops, outs, metas, oracle=True):
     kind = model_kind(case)
     desc, nt = describe(case, ops, outs)
     res = dict(ok=True, kind="oracle", clause="", nontrivial=nt, desc=desc, sig={"stopper": case["stopper"], "f16_median_lag": False})
     mo, mm = run_model(case, kind, ops)
     d = first_diff(outs, metas, mo, mm)
     if case["stopper"] == "median" and d is not None:
-        # does the implementation behave exactly like the MedianStopper of the pinned tree (rung index lags)?
+        # does the implementation behave exactly like the MedianStopper before the F16 fix (rung index lags)?
         oo, om = run_model(case, "median_old", ops)
         if first_diff(outs, metas, oo, om) is None:
             res["sig"]["f16_median_lag"] = True
@@ -383,28 +491,76 @@ def judge(case, ops, outs, metas, oracle=True):
     return res
 
 
+def judge(case, ops, outs, metas, oracle=True, problems=()):
+    """several searches on one storage: every search is judged on its own operations (C16_search_isolation);
+    every step may change the metadata of the addressed evaluation only (C16_frame)"""
+    n = case["njobs"]
+    groups = case.get("searches") or [0] * n
+    res = None
+    for k in sorted(set(groups)):
+        jobs = [j for j in range(n) if groups[j] == k]
+        if len(set(groups)) == 1:
+            sub, ops_k, outs_k, metas_k = case, ops, outs, metas
+        else:
+            ren = {j: i for i, j in enumerate(jobs)}
+            steps = [i for i, o in enumerate(ops) if groups[o[1]] == k]
+            ops_k = [[ops[i][0], ren[ops[i][1]]] + list(ops[i][2:]) for i in steps]
+            outs_k = [outs[i] for i in steps]
+            metas_k = [[metas[i][j] for j in jobs] for i in steps]
+            sub = dict(case, njobs=len(jobs), searches=None)
+            if "curves" in case:
+                sub["curves"] = [case["curves"][j] for j in jobs if j < len(case["curves"])] or case["curves"]
+        r = judge_one(sub, ops_k, outs_k, metas_k, oracle)
+        if not r["ok"]:
+            r["desc"] = r["desc"] + ["searches=%d" % len(set(groups))]
+            return r
+        if res is None:
+            res = r
+        else:
+            res["nontrivial"] = res["nontrivial"] or r["nontrivial"]
+    res["desc"] = res["desc"] + ["searches=%d" % len(set(groups)), "vtype=%s" % case.get("vtype", "float"), "ptype=%s" % case.get("ptype", "int"),
+                               "btype=%s" % case.get("btype", "int")]
+    prev = [({}, 0)] * n
+    for i, (o, mt) in enumerate(zip(ops, metas)):
+        changed = [j for j in range(n) if mt[j] != prev[j]]
+        if any(j != o[1] for j in changed):
+            return dict(res, ok=False, kind="corr", clause="frame",
+                        detail=dict(step=i, op=o, changed_jobs=changed, before=repr(prev), after=repr(mt), ops=ops))
+        prev = mt
+    if problems:
+        clause, det = problems[0]
+        return dict(res, ok=False, kind="corr", clause=clause, detail=dict(det, ops=ops))
+    return res
+
+
 def check_proto(case):
-    ops, outs, metas = run_protocol(case)
-    return judge(case, ops, outs, metas, oracle=True)
+    ops, outs, metas, problems = run_protocol(case)
+    return judge(case, ops, outs, metas, oracle=True, problems=problems)
 
 
 def check_search(case):
-    n, ops, outs, metas = run_search(case)
+    n, ops, outs, metas, problems = run_search(case)
     c = dict(case, njobs=n)
-    r = judge(c, ops, outs, metas, oracle=True)
-    r["desc"] = r["desc"] + ["num_workers=%d" % case.get("num_workers", 1), "yield=%s" % (case.get("yield", "rs") or "none"), "evaluations=%d" % n]
+    r = judge(c, ops, outs, metas, oracle=True, problems=problems)
+    r["desc"] = r["desc"] + ["num_workers=%d" % case.get("num_workers", 1), "yield=%s" % (case.get("yield", "rs") or "none"), "evaluations=%d" % n,
+                             "method=%s" % case.get("method", "serial"), "second_call=%s" % bool(case.get("second_call"))]
     return r
 
 
 def check_free(case):
-    ops, outs, metas = run_free(case)
-    r = judge(case, ops, outs, metas, oracle=False)
+    ops, outs, metas, problems = run_free(case)
+    r = judge(case, ops, outs, metas, oracle=False, problems=problems)
     r["nontrivial"] = any(o for o in outs) and any(o is False for o in outs)
     return r
 
 
 # ---------------------------------------------------------------- generators
-FAMILIES = ["monotone", "crossing", "constant", "noisy", "plateau"]
+FAMILIES = ["monotone", "crossing", "constant", "noisy", "plateau", "near_ties", "huge", "zeros"]
+# near_ties: objectives 1 + k * 2^-40 (scale 40): margins between 1e-12 and 1e-6 relative, on both sides of the default
+#            epsilon 1e-10 (= 109.95 * 2^-40); huge: +-(2^60 + k * 2^10) (scale 0; far beyond 2^53 / float32 / epsilon);
+# zeros: exact 0 / +-1 (falsy values, exact ties)
+NEAR_OFFSETS = [0, 0, 1, -1, 2, 50, 108, 109, 110, 111, 112, -109, -110, -111, 219, 220, 221, 300, 2 ** 20, -(2 ** 20), 2 ** 21]
+FAMILY_SCALE = {"near_ties": 40, "huge": 0, "zeros": 0}
 
 
 def gen_curve(rng, family, T, j, n):
@@ -429,6 +585,13 @@ def gen_curve(rng, family, T, j, n):
     if family == "plateau":  # saturating: a - c // t
         a, c = rng.randint(0, 60), rng.randint(1, 60)
         return [a - c // t for t in range(1, T + 1)]
+    if family == "near_ties":
+        return [2 ** 40 + rng.choice(NEAR_OFFSETS) for _ in range(T)]
+    if family == "huge":
+        sgn = -1 if rng.random() < 0.3 else 1
+        return [sgn * (2 ** 60 + 2 ** 10 * rng.randint(-40, 40)) for _ in range(T)]
+    if family == "zeros":
+        return [rng.choice([0, 0, 0, 1, -1]) for _ in range(T)]
     raise ValueError(family)
 
 
@@ -439,13 +602,30 @@ def gen_params(rng, stopper, tier):
     if c["eps"] != "default":
         c["scale"] = 3
     if stopper == "asha":
-        c.update(min_steps=rng.choice([1, 1, 1, 2, 3]), rf=rng.choice([2, 3, 4]), mesr=rng.choice([0, 0, 0, 1]),
+        c.update(min_steps=rng.choice([1, 1, 1, 2, 3, 5, 6]), rf=rng.choice([2, 3, 4]), mesr=rng.choice([0, 0, 0, 1]),
                  min_comp=rng.choice([0, 0, 0, 0, 1, 2, 3]), min_full=rng.choice([0, 0, 0, 1, 2]))
     elif stopper == "median":
         c.update(min_steps=rng.choice([1, 1, 2, 3, 5]), interval=rng.choice([1, 2, 3]), min_comp=rng.choice([0, 1, 2, 3]))
     elif stopper == "const":
         c.update(stop_step=rng.randint(1, ms + 2))
+    if rng.random() < 0.2:
+        c["ptype"] = "float"
+    if rng.random() < 0.15:
+        c["btype"] = "float"
     return c
+
+
+def set_family(rng, c, fam):
+    """family-specific scale / epsilon / objective types"""
+    c["family"] = fam
+    if fam in FAMILY_SCALE:
+        c["scale"] = FAMILY_SCALE[fam]
+        if c["eps"] not in ("default", [0, 0]):
+            c["eps"] = rng.choice(["default", [0, 0]])
+    if c["scale"] == 0:
+        c["vtype"] = rng.choice(["float", "int", "npfloat", "npint", "mixed", "mixed"])
+    else:
+        c["vtype"] = rng.choice(["float", "float", "npfloat"])
 
 
 def gen_sched(rng, n, T, style):
@@ -479,6 +659,11 @@ STYLES = ["sequential", "roundrobin", "random_step", "random_op", "staggered", "
 def add_failures(rng, curves, T, mode):
     if mode == 0:
         return
+    if mode == 3:  # failures at the very first step (possibly of every evaluation)
+        for c in curves:
+            if rng.random() < 0.6:
+                c[0] = None
+        return
     for c in curves:
         if rng.random() < (0.25 if mode == 1 else 0.7):
             c[rng.randrange(min(len(c), T))] = None
@@ -492,11 +677,13 @@ def gen_proto(stopper, count):
             T = c["max_steps"]
             n = rng.randint(1, 6) if tier != "search" else rng.randint(1, 3)
             fam = FAMILIES[i % len(FAMILIES)]
-            c["family"] = fam
+            set_family(rng, c, fam)
             curves = [gen_curve(rng, fam, T + 3, j, n) for j in range(n)]
-            add_failures(rng, curves, T, (i // len(FAMILIES)) % 3)
+            add_failures(rng, curves, T, (i // len(FAMILIES)) % 4)
             sched, gran = gen_sched(rng, n, T, STYLES[(i // 3) % len(STYLES)])
             c.update(njobs=n, curves=curves, sched=sched, gran=gran, lazy=rng.random() < 0.25, drain=True)
+            if n >= 2 and rng.random() < 0.2:  # two searches on the same storage
+                c["searches"] = [rng.randrange(2) for _ in range(n)]
             yield c
     return gen
 
@@ -527,6 +714,10 @@ EXH_CURVES = [
     ("constant", [[1, 1, 1, 1, 1, 1], [1, 1, 1, 1, 1, 1], [0, 1, 2, 1, 0, 0]]),
     ("failures", [[4, 7, None, 9, 9, 9], [5, 6, 8, 9, 10, 10], [6, None, 1, 1, 1, 1]]),
     ("monotone", [[1, 2, 3, 4, 5, 6], [3, 5, 7, 9, 11, 13], [2, 3, 4, 5, 6, 7]]),
+    # margins of 109 / 110 / 111 * 2^-40 around the default epsilon (109.95 * 2^-40), exact ties, 1e-6 relative margins
+    ("near_ties", [[2 ** 40 + 110, 2 ** 40, 2 ** 40 + 2 ** 20, 2 ** 40 + 1, 2 ** 40, 2 ** 40],
+                   [2 ** 40, 2 ** 40 + 109, 2 ** 40, 2 ** 40 + 111, 2 ** 40, 2 ** 40],
+                   [2 ** 40 + 220, 2 ** 40 + 219, 2 ** 40 - 2 ** 20, 2 ** 40, 2 ** 40 + 1, 2 ** 40]]),
 ]
 
 
@@ -549,7 +740,9 @@ def gen_exhaustive(stopper, tier_sets):
             return
         for prm in tier_sets[tier]:
             for fam, curves in [EXH_CURVES[i] for i in prm.get("_curves", [0])]:
-                base = dict(stopper=stopper, scale=0, eps=prm.get("eps", "default"), family=fam, lazy=False, drain=False)
+                base = dict(stopper=stopper, scale=FAMILY_SCALE.get(fam, 0), eps=prm.get("eps", "default"), family=fam, lazy=False, drain=False)
+                if fam not in FAMILY_SCALE:
+                    base["vtype"] = prm.get("_vtype", "float")
                 base.update({k: v for k, v in prm.items() if not k.startswith("_")})
                 for pre in itertools.product(range(3), repeat=4):
                     yield dict(base, max_steps=4, njobs=3, curves=curves, counts=[4, 4, 4], prefix=list(pre), gran="step")
@@ -598,15 +791,18 @@ def check_any(case):
 
 
 EXH_ASHA = {
-    "quick": [dict(rf=2, min_steps=1, _curves=[2]), dict(rf=3, min_steps=2, eps=[0, 0], _curves=[1])],
+    "quick": [dict(rf=2, min_steps=1, _curves=[2], _vtype="mixed"), dict(rf=3, min_steps=2, eps=[0, 0], _curves=[1], _vtype="int"),
+              dict(rf=2, min_steps=1, _curves=[4])],
     "thorough": [dict(rf=rf, min_steps=m, mesr=e, min_full=(1 if (rf + m + e) % 3 == 0 else 0), eps=("default" if (rf + m) % 2 else [0, 0]),
-                      _curves=([0, 2] if (rf + m + e) % 2 else [1, 3]))
+                      _curves=([0, 2] if (rf + m + e) % 2 else [1, 3]) + ([4] if rf == 3 and e == 0 else []), _vtype=("mixed" if m == 2 else "float"))
                  for rf in (2, 3, 4) for m in (1, 2) for e in (0, 1) if not (m == 2 and e == 1)],
 }
 EXH_MEDIAN = {
-    "quick": [dict(min_comp=2, interval=1, min_steps=1, eps=[0, 0], _curves=[1]), dict(min_comp=3, interval=2, min_steps=1, _curves=[2])],
+    "quick": [dict(min_comp=2, interval=1, min_steps=1, eps=[0, 0], _curves=[1], _vtype="int"),
+              dict(min_comp=3, interval=2, min_steps=1, _curves=[2], _vtype="mixed"), dict(min_comp=0, interval=1, min_steps=1, _curves=[4])],
     "thorough": [dict(min_comp=mc, interval=iv, min_steps=(2 if (mc + iv) % 4 == 0 else 1), eps=("default" if (mc + iv) % 2 else [0, 0]),
-                      _curves=([1, 3] if (mc + iv + mc // 2) % 2 == 0 else [0, 2]))
+                      _curves=([1, 3] if (mc + iv + mc // 2) % 2 == 0 else [0, 2]) + ([4] if iv == 1 and mc in (0, 2) else []),
+                      _vtype=("mixed" if iv == 2 else "float"))
                  for mc in (0, 1, 2, 3) for iv in (1, 2, 3) if not (iv == 3 and mc < 2)],
 }
 
@@ -620,18 +816,25 @@ def gen_free(count):
             stopper = ["asha", "median", "const", "idle"][i % 4] if i % 8 else rng.choice(["asha", "median"])
             c = gen_params(rng, stopper, tier)
             n = rng.randint(1, 4)
-            ops, pend = [], [False] * n
+            ops, pend, seen = [], [False] * n, [False] * n
             for _ in range(rng.randint(1, 40)):
                 j = rng.randrange(n)
                 if pend[j]:
                     ops.append(["s", j])
                     pend[j] = False
+                elif seen[j] and stopper != "asha" and rng.random() < 0.2:
+                    ops.append(["s", j])  # stopped() asked again without a new record()
                 else:
+                    seen[j] = True
                     b = rng.choice([rng.randint(1, c["max_steps"] + 2), rng.randint(1, 4)])
                     z = None if rng.random() < 0.07 else rng.randint(-30, 30)
                     ops.append(["r", j, b, z])
                     pend[j] = rng.random() < 0.85  # sometimes two record() in a row
             c.update(njobs=n, ops=ops, lazy=rng.random() < 0.3, family="free")
+            if c["scale"] == 0:
+                c["vtype"] = rng.choice(["float", "int", "mixed"])
+            if n >= 2 and rng.random() < 0.2:
+                c["searches"] = [rng.randrange(2) for _ in range(n)]
             yield c
     return gen
 
@@ -644,18 +847,24 @@ def gen_search(count):
             c = gen_params(rng, stopper, "search")  # max_steps 4 or 9
             T = c["max_steps"]
             fam = FAMILIES[i % len(FAMILIES)]
+            set_family(rng, c, fam)
             nc = rng.randint(1, 6)
             curves = [gen_curve(rng, fam, T + 3, j, nc) for j in range(nc)]
-            add_failures(rng, curves, T, (i // len(FAMILIES)) % 3)
-            c.update(family=fam, curves=curves, num_workers=rng.randint(1, 4), max_evals=rng.randint(1, 8),
+            add_failures(rng, curves, T, (i // len(FAMILIES)) % 4)
+            c.update(curves=curves, num_workers=rng.randint(1, 4), max_evals=rng.randint(1, 8),
                      seed=rng.randint(0, 1000), njobs=0)
             c["yield"] = rng.choice(["rs", "rs", "r", "s", ""])
+            if i % 4 == 3:
+                c["method"] = "thread"
+            if rng.random() < 0.3:  # search() called twice on the same Search / stopper / storage
+                c["second_call"] = rng.randint(1, 4)
             yield c
     return gen
 
 
 def shrink_search(case):
-    for k, v in (("min_full", 0), ("mesr", 0), ("min_steps", 1), ("eps", [0, 0]), ("interval", 1), ("min_comp", 0)):
+    for k, v in (("second_call", 0), ("method", "serial"), ("vtype", "float"), ("ptype", "int"), ("btype", "int"), ("min_full", 0), ("mesr", 0), ("min_steps", 1),
+                 ("eps", [0, 0]), ("interval", 1), ("min_comp", 0)):
         if k in case and case[k] != v:
             yield dict(case, **{k: v})
     if case.get("max_evals", 4) > 1:
@@ -674,6 +883,8 @@ def shrink_search(case):
 def drop_job(case, j):
     n = case["njobs"]
     c = dict(case, njobs=n - 1)
+    if case.get("searches"):
+        c["searches"] = case["searches"][:j] + case["searches"][j + 1:]
     if "curves" in case:
         c["curves"] = case["curves"][:j] + case["curves"][j + 1:]
         c["sched"] = [x - (x > j) for x in case["sched"] if x != j]
@@ -687,8 +898,9 @@ def shrink_common(case):
     if n > 1:
         for j in range(n):
             yield drop_job(case, j)
-    for k, v in (("lazy", False), ("min_full", 0), ("mesr", 0), ("min_steps", 1), ("eps", [0, 0]), ("interval", 1), ("min_comp", 0)):
-        if k in case and case[k] != v and not (k == "eps" and case.get("scale", 0) < 0):
+    for k, v in (("searches", None), ("vtype", "float"), ("ptype", "int"), ("btype", "int"), ("lazy", False), ("min_full", 0), ("mesr", 0), ("min_steps", 1),
+                 ("eps", [0, 0]), ("interval", 1), ("min_comp", 0)):
+        if k in case and case[k] != v:
             yield dict(case, **{k: v})
     if case["max_steps"] > 2:
         yield dict(case, max_steps=case["max_steps"] - 1)
@@ -724,7 +936,7 @@ def shrink_free(case):
 # ---------------------------------------------------------------- streams
 def streams(tier):
     th = tier == "thorough"
-    n = 6000 if th else 500
+    n = 6000 if th else 600
     return [
         Stream("asha_protocol", gen_proto("asha", n), check_proto, shrink_proto, timeout=60),
         Stream("median_protocol", gen_proto("median", n), check_proto, shrink_proto, timeout=60),
@@ -733,7 +945,7 @@ def streams(tier):
         Stream("asha_exhaustive", gen_exhaustive("asha", EXH_ASHA), check_any, shrink_block, timeout=300),
         Stream("median_exhaustive", gen_exhaustive("median", EXH_MEDIAN), check_any, shrink_block, timeout=300),
         Stream("free_ops", gen_free(4000 if th else 600), check_free, shrink_free, timeout=60),
-        Stream("search_end_to_end", gen_search(1500 if th else 200), check_search, shrink_search, timeout=120),
+        Stream("search_end_to_end", gen_search(1500 if th else 300), check_search, shrink_search, timeout=120),
     ]
 
 
